@@ -894,7 +894,7 @@ class Pory:
             b, bs = s.stmt_item(depth + 1)
             return ("if (flag(F)) { %s }" % b, lambda sw, bs=bs: (None if bs(sw) is None else "if (flag(F)) { %s }" % bs(sw)))
         if x < 0.78:
-            s.ncmd += 1; t = "PL%d:" % s.ncmd; return (t, lambda sw, t=t: t)       # a label statement (also as the only statement of a case)
+            t = "PL%s:" % r.choice("abc"); return (t, lambda sw, t=t: t)       # a label statement (also the only statement of a case; the same name in several cases)
         s.ncmd += 1; t = "c%d(x, 1)" % s.ncmd; return (t, lambda sw, t=t: t)
     def move_item(s, depth):
         r = s.r
